@@ -37,6 +37,9 @@ pub struct Profile {
     pub dangling: bool,
     /// allow special modes / EmptyBlockAlt on non-applicable opcodes (C22)
     pub misapplied: bool,
+    /// allow instrumentation strictly inside a construct that is (or later gets) replaced through
+    /// block-alternate: it must disappear with the construct
+    pub region_interior: bool,
 }
 
 impl Profile {
@@ -69,6 +72,7 @@ impl Profile {
             tags: false,
             dangling: false,
             misapplied: false,
+            region_interior: false,
         }
     }
 }
@@ -1524,13 +1528,15 @@ impl OpGen<'_> {
                             None => continue,
                         };
                         let compatible = |x: usize, y: usize| b2 < x || y < a || (a > x && b2 < y) || (x > a && y < b2);
+                        // instrumentation strictly inside the construct goes away with it; on the
+                        // opener or the closing end no lowering is stated, so those stay exclusive
                         if regions.iter().any(|(x, y)| !compatible(*x, *y))
-                            || instrumented.iter().any(|k| *k >= a && *k <= b2)
+                            || instrumented.iter().any(|k| *k == a || *k == b2 || (!self.p.region_interior && *k > a && *k < b2))
                             || (mode == Mode::EmptyBlockAlt && matches!(l.body[i].ins, Ins::If(_)))
                         {
                             continue;
                         }
-                    } else if regions.iter().any(|(x, y)| i >= *x && i <= *y + 1) {
+                    } else if regions.iter().any(|(x, y)| (i >= *x && i <= *y + 1) && !(self.p.region_interior && i > *x && i < *y)) {
                         continue;
                     }
                     // a type-preserving replacement repeats the instruction, so an instruction
